@@ -304,7 +304,7 @@ func ruleLinkOwnStore(c *Ctx, rule string) {
 	}
 	_ = bad
 	c.CallSites(n)
-	c.Floor(rule, 30)
+	c.Floor(rule, 15)
 }
 
 // ruleNoAliasingAppend (ALIASAPPEND): the result of append(x.f, …) on a slice held in a field is stored back
